@@ -55,6 +55,11 @@ func drawAlgoCfg(t *Tape, names []string, wraps []string) algoCfg {
 	if t.Chance(15, "big-initial") {
 		c.Initial = 1 + t.Intn(900, "initial-big")
 	}
+	boundary := t.Chance(8, "table-boundary")
+	if boundary {
+		// the pre-computed sqrt / log10 tables have 1000 entries: sit right at their edge
+		c.Initial = 985 + t.Intn(30, "initial-boundary")
+	}
 	c.Smoothing = smoothings[t.Intn(len(smoothings), "smoothing")]
 	switch c.Name {
 	case "aimd":
@@ -70,6 +75,9 @@ func drawAlgoCfg(t *Tape, names []string, wraps []string) algoCfg {
 			c.Max = 1 + t.Intn(c.Initial, "max-below")
 		}
 		c.ProbeMult = []int{30, 4, 10, 60, 5}[t.Intn(5, "probe-mult")]
+		if boundary {
+			c.Max = []int{1000, 1005, 2000, 999}[t.Intn(4, "max-boundary")]
+		}
 	case "gradient":
 		c.Min = 1 + t.Intn(c.Initial, "min")
 		c.Max = c.Initial + t.Intn(1200, "max-above")
